@@ -323,3 +323,268 @@ Proof. repeat split. Qed.
 Theorem nil_reaches_script_as_nil :
   resp_to_lua (RBulk None) = LNil /\ resp_to_lua_redis (RBulk None) = LBool false.
 Proof. split; reflexivity. Qed.
+
+(* ------------------------------------------------------------------ printing and re-reading numbers *)
+Definition is_digit (c : N) : bool := ((48 <=? c) && (c <=? 57))%N.
+Definition all_digits (ds : bytes) : bool := forallb is_digit ds.
+Fixpoint val (r : Z) (ds : bytes) : Z :=
+  match ds with [] => r | c :: t => val (10 * r + Z.of_N (c - 48)) t end.
+
+Lemma digit_is c : is_digit c = true -> digit c = Some (Z.of_N (c - 48)).
+Proof. unfold is_digit, digit. now intros ->. Qed.
+Lemma is_digit_range c : is_digit c = true -> (48 <= c <= 57)%N.
+Proof. unfold is_digit. intros H. apply andb_true_iff in H as [H1 H2]. apply N.leb_le in H1, H2. lia. Qed.
+Lemma val_mono ds : all_digits ds = true -> forall r, (0 <= r)%Z -> (r <= val r ds)%Z.
+Proof.
+  induction ds as [|c t IH]; cbn [val all_digits forallb]; intros H r Hr; [lia|].
+  apply andb_true_iff in H as [Hc Ht]. apply is_digit_range in Hc.
+  specialize (IH Ht (10 * r + Z.of_N (c - 48))%Z). lia.
+Qed.
+Lemma acc_pos_val hi ds : all_digits ds = true -> forall r, (0 <= r)%Z -> (val r ds <= hi)%Z ->
+  acc_pos hi r ds = IOk (val r ds).
+Proof.
+  induction ds as [|c t IH]; cbn [val all_digits forallb acc_pos]; intros H r Hr Hv; [reflexivity|].
+  apply andb_true_iff in H as [Hc Ht]. rewrite (digit_is _ Hc).
+  pose proof (is_digit_range _ Hc) as Hc'.
+  pose proof (val_mono t Ht (10 * r + Z.of_N (c - 48))%Z ltac:(lia)) as Hm.
+  cbv zeta. destruct (Z.gtb_spec (10 * r + Z.of_N (c - 48)) hi); [lia|].
+  apply IH; auto; lia.
+Qed.
+Lemma acc_neg_val lo ds : all_digits ds = true -> forall r, (r <= 0)%Z -> (lo <= - val (- r) ds)%Z ->
+  acc_neg lo r ds = IOk (- val (- r) ds)%Z.
+Proof.
+  induction ds as [|c t IH]; cbn [val all_digits forallb acc_neg]; intros H r Hr Hv.
+  - f_equal. lia.
+  - apply andb_true_iff in H as [Hc Ht]. rewrite (digit_is _ Hc).
+    pose proof (is_digit_range _ Hc) as Hc'.
+    replace (10 * - r + Z.of_N (c - 48))%Z with (- (10 * r - Z.of_N (c - 48)))%Z in * by lia.
+    pose proof (val_mono t Ht (- (10 * r - Z.of_N (c - 48)))%Z ltac:(lia)) as Hm.
+    cbv zeta. destruct (Z.ltb_spec (10 * r - Z.of_N (c - 48)) lo); [lia|].
+    apply IH; auto; lia.
+Qed.
+
+Lemma ndigits_digits fuel : forall n acc, all_digits acc = true -> all_digits (ndigits fuel n acc) = true.
+Proof.
+  induction fuel as [|f IH]; cbn [ndigits]; intros n acc Ha; [exact Ha|].
+  assert (Hd : all_digits ((48 + n mod 10)%N :: acc) = true).
+  { cbn [all_digits forallb]. fold (all_digits acc). rewrite Ha, andb_true_r.
+    unfold is_digit. pose proof (N.mod_lt n 10 ltac:(lia)) as Hm.
+    remember (n mod 10)%N as m. apply andb_true_iff. split; apply N.leb_le; lia. }
+  cbv zeta. destruct (n / 10 =? 0)%N; [exact Hd|]. now apply IH.
+Qed.
+Lemma ndigits_nonempty fuel : forall n acc, acc <> [] -> ndigits fuel n acc <> [].
+Proof.
+  induction fuel as [|f IH]; cbn [ndigits]; intros n acc Ha; [exact Ha|].
+  cbv zeta. destruct (n / 10 =? 0)%N; [discriminate|]. apply IH. discriminate.
+Qed.
+Lemma ndigits_val fuel : forall n acc, (n < 2 ^ N.of_nat fuel)%N ->
+  val 0 (ndigits fuel n acc) = val (Z.of_N n) acc.
+Proof.
+  induction fuel as [|f IH]; intros n acc Hn.
+  - cbn [ndigits]. change (2 ^ N.of_nat 0)%N with 1%N in Hn. replace n with 0%N by lia. reflexivity.
+  - cbn [ndigits]. cbv zeta.
+    pose proof (N.div_mod n 10 ltac:(lia)) as Hdm. pose proof (N.mod_lt n 10 ltac:(lia)) as Hml.
+    remember (n mod 10)%N as m. remember (n / 10)%N as q.
+    destruct (N.eqb_spec q 0) as [E|E].
+    + cbn [val]. f_equal. rewrite E in Hdm. lia.
+    + rewrite IH.
+      * cbn [val]. f_equal. lia.
+      * rewrite Nat2N.inj_succ, N.pow_succ_r' in Hn. remember (2 ^ N.of_nat f)%N as pw. lia.
+Qed.
+Lemma ntoa_digits n : all_digits (ntoa n) = true.
+Proof. apply ndigits_digits. reflexivity. Qed.
+Lemma ntoa_nonempty n : ntoa n <> [].
+Proof.
+  unfold ntoa. cbn [ndigits]. cbv zeta. destruct (n / 10 =? 0)%N; [discriminate|].
+  apply ndigits_nonempty. discriminate.
+Qed.
+Lemma ntoa_val n : val 0 (ntoa n) = Z.of_N n.
+Proof.
+  unfold ntoa. rewrite ndigits_val; [reflexivity|].
+  rewrite Nat2N.inj_succ, N2Nat.id, N.pow_succ_r'. pose proof (N.size_gt n). lia.
+Qed.
+
+Lemma all_digits_ascii ds : all_digits ds = true -> ascii ds.
+Proof.
+  induction ds as [|c t IH]; cbn [all_digits forallb]; intros H; [constructor|].
+  apply andb_true_iff in H as [H1 H2]. constructor.
+  - apply is_digit_range in H1. lia.
+  - apply IH. exact H2.
+Qed.
+Lemma itoa_ascii z : ascii (itoa z).
+Proof.
+  destruct z; cbn [itoa].
+  - repeat constructor.
+  - apply all_digits_ascii, ntoa_digits.
+  - constructor; [lia|]. apply all_digits_ascii, ntoa_digits.
+Qed.
+Lemma lossy_itoa z : lossy (itoa z) = itoa z.
+Proof. apply lossy_ascii, itoa_ascii. Qed.
+
+Lemma head_digit_not_sign c t : all_digits (c :: t) = true -> ((c =? 43) || (c =? 45))%N = false /\ (c =? 43)%N = false /\ (c =? 45)%N = false.
+Proof.
+  cbn [all_digits forallb]. intros H. apply andb_true_iff in H as [H _]. apply is_digit_range in H.
+  assert ((c =? 43)%N = false) by (apply N.eqb_neq; lia).
+  assert ((c =? 45)%N = false) by (apply N.eqb_neq; lia).
+  now rewrite H0, H1.
+Qed.
+Lemma parse_int_digits signed lo hi ds :
+  ds <> [] -> all_digits ds = true -> (val 0 ds <= hi)%Z ->
+  parse_int signed lo hi ds = IOk (val 0 ds).
+Proof.
+  intros Hne Hd Hv. destruct ds as [|c t]; [contradiction|].
+  destruct (head_digit_not_sign _ _ Hd) as (E1 & E2 & E3).
+  unfold parse_int. destruct t.
+  - rewrite E1. apply acc_pos_val; auto. lia.
+  - rewrite E2, E3. cbn [andb]. apply acc_pos_val; auto. lia.
+Qed.
+Lemma parse_int_itoa signed lo hi z :
+  (lo <= z <= hi)%Z -> (signed = true \/ 0 <= z)%Z ->
+  parse_int signed lo hi (itoa z) = IOk z.
+Proof.
+  intros Hr Hs. destruct z as [|p|p]; cbn [itoa].
+  - cbn. destruct (Z.gtb_spec 0 hi); [lia|reflexivity].
+  - rewrite parse_int_digits.
+    + now rewrite ntoa_val.
+    + apply ntoa_nonempty.
+    + apply ntoa_digits.
+    + rewrite ntoa_val. cbn. lia.
+  - destruct Hs as [->|Hs]; [|lia].
+    unfold parse_int. pose proof (ntoa_nonempty (N.pos p)) as Hne.
+    destruct (ntoa (N.pos p)) as [|c t] eqn:E; [contradiction|].
+    cbn [N.eqb Pos.eqb andb orb]. rewrite <- E.
+    rewrite (acc_neg_val lo _ (ntoa_digits _) 0%Z ltac:(lia)); cbn [Z.opp]; rewrite ntoa_val; cbn; [reflexivity|lia].
+Qed.
+Lemma parse_i64_itoa z : in_range I64_MIN I64_MAX z = true -> parse_i64 (lossy (itoa z)) = IOk z.
+Proof.
+  unfold in_range. intros H. apply andb_true_iff in H as [H1 H2]. apply Z.leb_le in H1, H2.
+  rewrite lossy_itoa. apply parse_int_itoa; auto.
+Qed.
+Lemma parse_unsigned_itoa hi z : in_range 0 hi z = true -> parse_int false 0 hi (lossy (itoa z)) = IOk z.
+Proof.
+  unfold in_range. intros H. apply andb_true_iff in H as [H1 H2]. apply Z.leb_le in H1, H2.
+  rewrite lossy_itoa. apply parse_int_itoa; auto.
+Qed.
+
+(* ------------------------------------------------------------------ extract (unext v) = v *)
+Lemma in_range_spec lo hi z : in_range lo hi z = true -> (lo <= z <= hi)%Z.
+Proof. unfold in_range. intros H. apply andb_true_iff in H as [H1 H2]. apply Z.leb_le in H1, H2. lia. Qed.
+Lemma ext_int_itoa z : in_range I64_MIN I64_MAX z = true -> ext_int (EBulk (itoa z)) = Ok z.
+Proof. intros H. unfold ext_int. now rewrite parse_i64_itoa. Qed.
+Lemma ext_u64_itoa z : in_range 0 U64_MAX z = true -> ext_u64 (EBulk (itoa z)) = Ok z.
+Proof. intros H. unfold ext_u64, parse_u64. now rewrite parse_unsigned_itoa. Qed.
+
+Lemma ext_unext k v : wf_val k v = true -> extract k (EBulk (unext_k k v)) = Ok v.
+Proof.
+  destruct k, v; cbn [wf_val]; try discriminate; intros H; cbn [unext_k unext unext_usz extract].
+  - apply bytes_eqb_eq in H. now rewrite H.
+  - apply bytes_eqb_eq in H. now rewrite H.
+  - reflexivity.
+  - now rewrite ext_int_itoa.
+  - (* KUsz *)
+    pose proof (in_range_spec _ _ _ H) as Hr. unfold U64_MAX in Hr.
+    destruct (Z.ltb_spec z (2 ^ 63)).
+    + rewrite ext_int_itoa.
+      * rewrite Z.mod_small; [reflexivity|unfold TWO64; lia].
+      * unfold in_range, I64_MIN, I64_MAX. apply andb_true_iff. split; apply Z.leb_le; lia.
+    + rewrite ext_int_itoa.
+      * f_equal. f_equal. unfold TWO64.
+        replace (z - 2 ^ 64)%Z with (z + (-1) * 2 ^ 64)%Z by lia.
+        rewrite Z.mod_add by lia. apply Z.mod_small. lia.
+      * unfold in_range, I64_MIN, I64_MAX, TWO64. apply andb_true_iff. split; apply Z.leb_le; lia.
+  - now rewrite ext_u64_itoa.
+  - rewrite ext_u64_itoa by exact H. reflexivity.
+  - (* KBit *)
+    pose proof (in_range_spec _ _ _ H) as Hr.
+    rewrite ext_int_itoa.
+    + cbn [remap]. destruct (Z.ltb_spec z 0); [lia|]. destruct (Z.ltb_spec 1 z); [lia|]. reflexivity.
+    + unfold in_range, I64_MIN, I64_MAX. apply andb_true_iff. split; apply Z.leb_le; lia.
+  - (* KOffset *)
+    pose proof (in_range_spec _ _ _ H) as Hr.
+    rewrite ext_int_itoa.
+    + destruct (Z.ltb_spec z 0); [lia|]. reflexivity.
+    + unfold in_range, I64_MIN, I64_MAX in *. apply andb_true_iff. split; apply Z.leb_le; lia.
+  - (* KFloat *)
+    apply andb_true_iff in H as [H1 H2]. apply bytes_eqb_eq in H1. rewrite H1.
+    destruct (float_class t); [reflexivity|discriminate].
+  - (* KFinite *)
+    apply andb_true_iff in H as [H1 H2]. apply bytes_eqb_eq in H1. rewrite H1.
+    destruct (float_class t) as [[| |]|]; try discriminate. reflexivity.
+  - (* KDb *)
+    pose proof (in_range_spec _ _ _ H) as Hr.
+    rewrite ext_u64_itoa.
+    + destruct (Z.ltb_spec 15 z); [lia|]. reflexivity.
+    + unfold in_range, U64_MAX. apply andb_true_iff. split; apply Z.leb_le; lia.
+  - (* KUszStr *)
+    unfold parse_u64. now rewrite parse_unsigned_itoa.
+  - (* KU32Str *)
+    unfold parse_u32. now rewrite parse_unsigned_itoa.
+Qed.
+
+Lemma extract_list_unext k l :
+  forallb (wf_val k) l = true -> extract_list k (map EBulk (map (unext_k k) l)) = Ok l.
+Proof.
+  induction l as [|v l IH]; cbn [forallb map extract_list]; intros H; [reflexivity|].
+  apply andb_true_iff in H as [H1 H2]. now rewrite (ext_unext _ _ H1), (IH H2).
+Qed.
+Definition pair_tokens (k1 k2 : kind) (p : cval) : list bytes :=
+  match p with VP a b => [unext_k k1 a; unext_k k2 b] | _ => [] end.
+Lemma extract_pairs_unext k1 k2 l :
+  forallb (wf_pair k1 k2) l = true ->
+  extract_pairs k1 k2 (map EBulk (flat_map (pair_tokens k1 k2) l)) = Ok l
+  /\ List.length (flat_map (pair_tokens k1 k2) l) = (2 * List.length l)%nat.
+Proof.
+  induction l as [|v l IH]; cbn [forallb flat_map]; intros H; [split; reflexivity|].
+  apply andb_true_iff in H as [H1 H2]. destruct v; try discriminate. cbn [wf_pair] in H1.
+  apply andb_true_iff in H1 as [Ha Hb]. destruct (IH H2) as [E L].
+  cbn [pair_tokens app map extract_pairs]. rewrite (ext_unext _ _ Ha), (ext_unext _ _ Hb), E.
+  split; [reflexivity|]. cbn [List.length]. rewrite L. lia.
+Qed.
+Lemma extract_pre_unext pre : forall vs rest,
+  wf_pre pre vs = true ->
+  extract_pre pre (map EBulk (unext_pre pre vs) ++ rest) = Ok (vs, rest)
+  /\ List.length (unext_pre pre vs) = List.length pre.
+Proof.
+  induction pre as [|k pre IH]; intros [|v vs] rest; cbn [wf_pre]; try discriminate; intros H.
+  - split; reflexivity.
+  - apply andb_true_iff in H as [H1 H2]. destruct (IH vs rest H2) as [E L].
+    cbn [unext_pre map app extract_pre]. rewrite (ext_unext _ _ H1), E. cbn [fst snd].
+    split; [reflexivity|]. cbn [List.length]. now rewrite L.
+Qed.
+
+Lemma run_simple tag pre tl e a1 a2 :
+  wf_pre pre a1 = true -> wf_tail tl a2 = true ->
+  run_rule (RSimple tag pre tl e) (map EBulk (unext_pre pre a1 ++ unext_tail tl a2))
+  = POk (Cmd tag (a1 ++ a2)).
+Proof.
+  intros Hp Ht. rewrite map_app.
+  destruct (extract_pre_unext pre a1 (map EBulk (unext_tail tl a2)) Hp) as [E L].
+  unfold run_rule.
+  assert (HA : arity_ok (RSimple tag pre tl e)
+                 (List.length (map EBulk (unext_pre pre a1) ++ map EBulk (unext_tail tl a2))) = true).
+  { rewrite app_length, !map_length, L. cbn [arity_ok].
+    destruct tl; cbn [wf_tail] in Ht.
+    - destruct a2; [|discriminate]. cbn. rewrite Nat.add_0_r. apply Nat.eqb_refl.
+    - reflexivity.
+    - destruct a2 as [|[] [|]]; try discriminate. apply Nat.leb_le. lia.
+    - destruct a2 as [|[] [|]]; try discriminate. apply andb_true_iff in Ht as [Hn _].
+      cbn [unext_tail]. rewrite map_length. destruct l; [discriminate|]. apply Nat.leb_le. cbn. lia.
+    - destruct a2 as [|[] [|]]; try discriminate. apply andb_true_iff in Ht as [Hn Hf].
+      cbn [unext_tail]. destruct (extract_pairs_unext k1 k2 l Hf) as [_ L2].
+      fold (pair_tokens k1 k2). rewrite L2. destruct l; [discriminate|].
+      apply andb_true_iff. split.
+      + apply Nat.leb_le. cbn. lia.
+      + replace (List.length pre + 2 * List.length (c :: l) - List.length pre)%nat
+          with (2 * List.length (c :: l))%nat by lia.
+        rewrite Nat.even_mul. reflexivity. }
+  rewrite HA. cbn [negb]. rewrite E. cbn [fst snd to_presult].
+  destruct tl; cbn [wf_tail] in Ht.
+  - destruct a2; [|discriminate]. now rewrite app_nil_r.
+  - destruct a2; [|discriminate]. now rewrite app_nil_r.
+  - destruct a2 as [|[] [|]]; try discriminate. cbn [unext_tail]. now rewrite (extract_list_unext _ _ Ht).
+  - destruct a2 as [|[] [|]]; try discriminate. apply andb_true_iff in Ht as [_ Hf].
+    cbn [unext_tail]. now rewrite (extract_list_unext _ _ Hf).
+  - destruct a2 as [|[] [|]]; try discriminate. apply andb_true_iff in Ht as [_ Hf].
+    cbn [unext_tail]. fold (pair_tokens k1 k2). destruct (extract_pairs_unext k1 k2 l Hf) as [E2 _].
+    now rewrite E2.
+Qed.
